@@ -5,6 +5,8 @@ package main
 
 import (
 	"fmt"
+	"go/token"
+	"go/types"
 	"math/big"
 	"sort"
 	"strings"
@@ -525,6 +527,22 @@ func checkC13(r *Result) {
 		}
 		r.check(n == 3, "PAY-RECORD", "fee-taking call sites of the two handlers", "-", fmt.Sprint(n))
 	}
+	// a payment from stake is refunded per payer (RefundDisputeFee -> FeeRefund(hashId, that payer's refund)): the record of what
+	// was unbonded must therefore be kept per payer, i.e. its key names the paying reporter as well as the dispute
+	if fn := need("(x/reporter/keeper.Keeper).FeefromReporterStake"); fn != nil {
+		tmf := NewTermer()
+		n := 0
+		for _, cs := range P.CallSitesIn(fn) {
+			if cs.Desc() != "coll:x/reporter/keeper.Keeper.FeePaidFromStake.Set" {
+				continue
+			}
+			n++
+			key := tmf.Of(Arg(cs.Instr, 1))
+			r.check(key.Has("param:2:"), "PAY-RECORD", "(x/reporter/keeper.Keeper).FeefromReporterStake # the from-stake record is keyed by the payer as well as the dispute", P.Pos(cs.Pos()),
+				"key: "+key.Brief()+" -- two reporters paying one dispute's fee from stake share one record; the first refund is spread over both and removes it")
+		}
+		r.check(n == 1, "PAY-RECORD", "(x/reporter/keeper.Keeper).FeefromReporterStake # one store of the from-stake record", P.Pos(fn.Pos()), fmt.Sprint(n))
+	}
 	if fn := need("(x/dispute/keeper.Keeper).ClaimReward"); fn != nil {
 		requireAtSuccess(r, "ONCE-CLAIM", fn, "a successful claim stored the claimed flag and paid", []Atom{
 			{Name: "flagStored", Event: P.CallEvent(descIs("coll:x/dispute/keeper.Keeper.Voter.Set"), T)},
@@ -684,11 +702,105 @@ func checkC13(r *Result) {
 	}
 
 	// ---- ALL-ROUNDS
-	for _, name := range []string{"(x/dispute/keeper.Keeper).CalculateReward", "(x/dispute/keeper.Keeper).GetSumOfAllGroupVotesAllRounds"} {
+	for _, name := range []string{"(x/dispute/keeper.Keeper).CalculateReward", "(x/dispute/keeper.Keeper).sumOfGroupVotesAllRounds"} {
 		if fn := need(name); fn != nil {
 			n, bad := everyIterationPasses(P, fn, "field:x/dispute/types.Dispute.PrevDisputeIds", descIs("coll:x/dispute/keeper.Keeper.VoteCountsByGroup.Get"))
 			r.check(n >= 1 && bad == "", "ALL-ROUNDS", name+" # every round's VoteCountsByGroup is read", P.Pos(fn.Pos()), fmt.Sprintf("%d loops over PrevDisputeIds; %s", n, bad))
 		}
+	}
+	// the groups whose votes decide whether a voters' pot is set aside are the groups the pot is divided among: a group counted
+	// by ExecuteVote's "no voters" test and unknown to CalculateReward leaves a pot nobody can claim (D26, the team)
+	if ev, cr := need("(x/dispute/keeper.Keeper).ExecuteVote"), need("(x/dispute/keeper.Keeper).CalculateReward"); ev != nil && cr != nil {
+		claimGroups := voteGroupsFeeding(cr, nil)
+		var potGroups map[string]bool
+		var where token.Pos
+		for _, b := range ev.Blocks {
+			for _, in := range b.Instrs {
+				c, ok := in.(*ssa.Call)
+				if !ok || CalleeName(c.Common()) != "(cosmossdk.io/math.Int).IsZero" || len(c.Call.Args) != 1 {
+					continue
+				}
+				ex, ok := c.Call.Args[0].(*ssa.Extract)
+				if !ok || ex.Index != 0 {
+					continue
+				}
+				call, ok := ex.Tuple.(*ssa.Call)
+				if !ok {
+					continue
+				}
+				callee := call.Call.StaticCallee()
+				if callee == nil || !strings.Contains(fnCanon(callee), "GroupVotes") {
+					continue
+				}
+				where = c.Pos()
+				potGroups = map[string]bool{}
+				for _, ret := range allReturns(callee) {
+					if len(ret.Results) >= 1 && !DefinitelyFails(ret) {
+						for g := range voteGroupsFeeding(callee, ret.Results[0]) {
+							potGroups[g] = true
+						}
+					}
+				}
+			}
+		}
+		r.check(potGroups != nil && len(claimGroups) > 0 && fmt.Sprint(keysOf(potGroups)) == fmt.Sprint(keysOf(claimGroups)), "ALL-ROUNDS",
+			"(x/dispute/keeper.Keeper).ExecuteVote # the votes that decide whether a pot is set aside are those of the groups CalculateReward divides it among", P.Pos(where),
+			fmt.Sprintf("pot decided by %v ; divided among %v", keysOf(potGroups), keysOf(claimGroups)))
+	}
+	// the list those sums walk names every round including the current one: every writer of PrevDisputeIds stores
+	// either [the dispute's own id] (first round) or the old list extended by the id the record is stored under
+	{
+		writers := 0
+		for _, fn := range P.RepoFuncs {
+			if !strings.HasPrefix(fnCanon(fn), "(x/dispute/keeper.") && !strings.HasPrefix(fnCanon(fn), "x/dispute/keeper.") {
+				continue
+			}
+			tmw := NewTermer()
+			for _, b := range fn.Blocks {
+				for _, in := range b.Instrs {
+					st, ok := in.(*ssa.Store)
+					if !ok {
+						continue
+					}
+					fa, ok := st.Addr.(*ssa.FieldAddr)
+					if !ok || fieldName(fa.X.Type(), fa.Field) != "x/dispute/types.Dispute.PrevDisputeIds" {
+						continue
+					}
+					writers++
+					// the id stored into the same record
+					var own ssa.Value
+					if refs := fa.X.Referrers(); refs != nil {
+						for _, ref := range *refs {
+							if fa2, ok := ref.(*ssa.FieldAddr); ok && fieldName(fa2.X.Type(), fa2.Field) == "x/dispute/types.Dispute.DisputeId" && fa2.Referrers() != nil {
+								for _, rr := range *fa2.Referrers() {
+									if st2, ok := rr.(*ssa.Store); ok && st2.Addr == ssa.Value(fa2) {
+										own = st2.Val
+									}
+								}
+							}
+						}
+					}
+					okForm, got := false, tmw.Of(st.Val).Brief()
+					if own != nil {
+						if els := variadicElemValues(st.Val); len(els) == 1 && els[0] == own {
+							okForm = true // []uint64{id}
+						}
+						if c, ok := st.Val.(*ssa.Call); ok {
+							if bi, ok := c.Call.Value.(*ssa.Builtin); ok && bi.Name() == "append" && len(c.Call.Args) == 2 {
+								base := tmw.Of(c.Call.Args[0])
+								tail := variadicElemValues(c.Call.Args[1])
+								okForm = strings.HasSuffix(base.Op, "Dispute.PrevDisputeIds") || base.Contains("Dispute.PrevDisputeIds")
+								okForm = okForm && len(tail) == 1 && tail[0] == own
+							}
+						}
+					} else {
+						got = "no id stored into the same record"
+					}
+					r.check(okForm, "ALL-ROUNDS", FuncName(fn)+" # the round list is [own id], or the old list extended by the id the record is stored under", P.Pos(st.Pos()), got)
+				}
+			}
+		}
+		r.check(writers >= 2, "ALL-ROUNDS", "x/dispute/keeper # writers of Dispute.PrevDisputeIds", "-", fmt.Sprintf("%d", writers))
 	}
 	// ---- ONCE-PER-DISPUTE: a dispute is settled once, not once per round: the round that a new round supersedes
 	// must leave the execution queue, otherwise the begin blocker settles it with the old round's amounts as well
@@ -991,4 +1103,138 @@ func isLoopHeader(fn *ssa.Function, b *ssa.BasicBlock) bool {
 		}
 	}
 	return false
+}
+
+// voteGroupsFeeding returns the StakeholderVoteCounts groups (Users, Reporters, Tokenholders, Team) whose counters flow into
+// value v of fn -- through arithmetic, conversions, calls of library functions and local variables, including the ones a
+// closure of fn accumulates into. With v == nil: every group fn or its closures read at all.
+func voteGroupsFeeding(fn *ssa.Function, v ssa.Value) map[string]bool {
+	out := map[string]bool{}
+	group := func(t types.Type, idx int) {
+		n := fieldName(t, idx)
+		if strings.HasPrefix(n, "x/dispute/types.StakeholderVoteCounts.") {
+			out[strings.TrimPrefix(n, "x/dispute/types.StakeholderVoteCounts.")] = true
+		}
+	}
+	fns := append([]*ssa.Function{fn}, fn.AnonFuncs...)
+	if v == nil {
+		for _, f := range fns {
+			for _, b := range f.Blocks {
+				for _, in := range b.Instrs {
+					switch x := in.(type) {
+					case *ssa.Field:
+						group(x.X.Type(), x.Field)
+					case *ssa.FieldAddr:
+						group(x.X.Type(), x.Field)
+					}
+				}
+			}
+		}
+		return out
+	}
+	// stores into a cell, from fn or from a closure that captured it
+	storesTo := func(cell ssa.Value) []ssa.Value {
+		var vals []ssa.Value
+		addrs := map[ssa.Value]bool{cell: true}
+		for _, f := range fn.AnonFuncs {
+			for _, b := range fn.Blocks {
+				for _, in := range b.Instrs {
+					if mc, ok := in.(*ssa.MakeClosure); ok && mc.Fn == ssa.Value(f) {
+						for i, bind := range mc.Bindings {
+							if bind == cell && i < len(f.FreeVars) {
+								addrs[f.FreeVars[i]] = true
+							}
+						}
+					}
+				}
+			}
+		}
+		for _, f := range fns {
+			for _, b := range f.Blocks {
+				for _, in := range b.Instrs {
+					if st, ok := in.(*ssa.Store); ok && addrs[st.Addr] {
+						vals = append(vals, st.Val)
+					}
+				}
+			}
+		}
+		return vals
+	}
+	seen := map[ssa.Value]bool{}
+	var walk func(x ssa.Value, depth int)
+	walk = func(x ssa.Value, depth int) {
+		if x == nil || seen[x] || depth > 40 {
+			return
+		}
+		seen[x] = true
+		switch y := x.(type) {
+		case *ssa.BinOp:
+			walk(y.X, depth+1)
+			walk(y.Y, depth+1)
+		case *ssa.Convert:
+			walk(y.X, depth+1)
+		case *ssa.ChangeType:
+			walk(y.X, depth+1)
+		case *ssa.Phi:
+			for _, e := range y.Edges {
+				walk(e, depth+1)
+			}
+		case *ssa.Call:
+			for _, a := range y.Call.Args {
+				walk(a, depth+1)
+			}
+		case *ssa.Extract:
+			if c, ok := y.Tuple.(*ssa.Call); ok {
+				if callee := c.Call.StaticCallee(); callee != nil && len(callee.Blocks) > 0 && callee != fn && strings.HasPrefix(fnCanon(callee), "(x/dispute/keeper.") {
+					for _, ret := range allReturns(callee) {
+						if y.Index < len(ret.Results) && !DefinitelyFails(ret) {
+							for g := range voteGroupsFeeding(callee, ret.Results[y.Index]) {
+								out[g] = true
+							}
+						}
+					}
+					return
+				}
+			}
+			walk(y.Tuple, depth+1)
+		case *ssa.Field:
+			group(y.X.Type(), y.Field)
+			walk(y.X, depth+1)
+		case *ssa.FieldAddr:
+			group(y.X.Type(), y.Field)
+			walk(y.X, depth+1)
+		case *ssa.UnOp:
+			if y.Op == token.MUL {
+				switch a := y.X.(type) {
+				case *ssa.Alloc:
+					for _, sv := range storesTo(a) {
+						walk(sv, depth+1)
+					}
+				case *ssa.FreeVar:
+					// a closure reading its own accumulator: the cell's stores were collected from the parent's side
+					for _, f := range fn.AnonFuncs {
+						for i, fv := range f.FreeVars {
+							if fv == a {
+								for _, b := range fn.Blocks {
+									for _, in := range b.Instrs {
+										if mc, ok := in.(*ssa.MakeClosure); ok && mc.Fn == ssa.Value(f) && i < len(mc.Bindings) {
+											for _, sv := range storesTo(mc.Bindings[i]) {
+												walk(sv, depth+1)
+											}
+										}
+									}
+								}
+							}
+						}
+					}
+				default:
+					walk(y.X, depth+1)
+				}
+			} else {
+				walk(y.X, depth+1)
+			}
+		}
+	}
+	walk(v, 0)
+	return out
 }
